@@ -11,6 +11,7 @@ import (
 	bloomfilter "github.com/KevoDB/kevo/pkg/bloom_filter"
 	"github.com/KevoDB/kevo/pkg/sstable/block"
 	"github.com/KevoDB/kevo/pkg/sstable/footer"
+	"github.com/KevoDB/kevo/pkg/verifhook"
 )
 
 // FileManager handles file operations for SSTable writing
@@ -375,6 +376,7 @@ func (w *Writer) flushBlock() error {
 		return fmt.Errorf("wrote incomplete block: %d of %d bytes", n, len(blockData))
 	}
 
+	verifhook.At("sstable.flushblock.after_write")
 	// Add the index entry
 	w.indexBuilder.AddIndexEntry(&IndexEntry{
 		BlockOffset: blockOffset,
@@ -489,6 +491,7 @@ func (w *Writer) Finish() (err error) {
 	// Update offset after writing index
 	w.dataOffset += uint64(n)
 
+	verifhook.At("sstable.finish.before_footer")
 	// Create footer with bloom filter information
 	ft := footer.NewFooter(
 		indexOffset,
@@ -512,11 +515,13 @@ func (w *Writer) Finish() (err error) {
 		return fmt.Errorf("wrote incomplete footer: %d of %d bytes", n, len(footerData))
 	}
 
+	verifhook.At("sstable.finish.before_sync")
 	// Sync the file
 	if err := w.fileManager.Sync(); err != nil {
 		return fmt.Errorf("failed to sync file: %w", err)
 	}
 
+	verifhook.At("sstable.finish.after_sync")
 	// Finalize file (close and rename)
 	return w.fileManager.FinalizeFile()
 }
